@@ -8,6 +8,18 @@ T_E1 = "stateless model checking of the translated implementation (controlled sc
 NOTE_E1 = "Trusted: gosim translation rules (audited by construct counts), rt channel/select/WaitGroup semantics under sequential consistency (litmus-tested against the real runtime), harness bodies in /verif/harness. "
 
 CHECKS = {
+ "C05": dict(engine=E1, category="model_checking", technique=T_E1, ref="DESIGN.md 3, 5/C05",
+  text="Every interleaving (unbounded, state-cached) of producer, stage goroutine and one draining consumer per output, for every sequential stage, input 1..k (k<=3; 4 thorough), capacities 0..2, all 2^k predicate patterns and all Take n in 0..k+1: outputs equal the list function, each output and error channel closes, ForEach visits each element once in order, Take lets the producer complete at most n+cap sends, no deadlock and no goroutine left.",
+  note=NOTE_E1 + "Elements are the distinct ints 1..k (the stages are parametric in the element type; predicate answers are enumerated instead)."),
+ "C06": dict(engine=E1, category="model_checking", technique=T_E1, ref="DESIGN.md 3, 5/C06",
+  text="Every ordering of environment moves (send, close, receive on any output, cancel: all free threads) for all 14 stages, k<=2 (3), capacities 0..1, consumers draining / absent / leaving after m values, error channel read by the harness, by StdErr or by nobody: no library panic, deliveries are a prefix of the uncancelled result, inputs closed + outputs drained => all channels closed and goroutines gone (Throttling pacer excepted), cancel + inputs closed => all library goroutines gone and every returned channel closed (observed on the simulated channel objects, no receive needed).",
+  note=NOTE_E1 + "Fold under cancel is allowed to emit the fold of the consumed prefix (interpretation recorded in DESIGN.md). Generators are driven by consumers that leave or cancel, so that executions are finite."),
+ "C07": dict(engine=E1, category="model_checking", technique=T_E1, ref="DESIGN.md 3, 5/C07",
+  text="All 2^k failing subsets (k<=3; 4 thorough) x {Lift, Try} x {Map, FMap} x capacities 0..2 x error consumer {reader thread, StdErr}; Emit over all failing subsets of indices 0..3, Unfold (fail-fast) over all failing subsets of seeds 1..4; every interleaving of value consumer, error consumer and stage: exact values, exact errors, exact call sequence of the user function, both channels closed, nothing blocked.",
+  note=NOTE_E1 + "'random longer inputs' of the quantifier are not generated (sampling is outside the family); the stage loops are memoryless per element."),
+ "C12": dict(engine=E1, category="model_checking", technique=T_E1, ref="DESIGN.md 3, 5/C12",
+  text="Join over every combination of 0..3 inputs with 0..2 distinct elements each, capacities 0..1, one producer per input, canceller absent or free, every interleaving: received sequence is an interleaving of the inputs (per-input order, no loss, duplicate or invention), the output closes exactly when all producers have closed (the consumer reads a shared counter at the moment it observes the close), closes with zero inputs, no goroutine left.",
+  note=NOTE_E1 + "Quick tier: <=4 elements on <=2 inputs, <=3 on 3 inputs; thorough: all combinations up to 2+2+2 (preemption bound 4 at 6 elements)."),
  "C08": dict(engine=E1, category="model_checking", technique=T_E1, ref="DESIGN.md 3, 5/C08",
   text="Every interleaving (unbounded, state-cached) of the translated pipe.New pump with 1-2 senders, a receiver and a free canceller, for capacities 0..2 (3), 0..3 (4) sends, sender close, receiver drain/stop/absent and both sync.Pool recycling policies, is checked for FIFO, exactly-once, delivery of every completed send after cancel, clean end of stream on sender close, sender never waiting for the receiver, and no library panic.",
   note=NOTE_E1 + "Bounds: capacities and send counts as stated; values are distinct ints."),
